@@ -146,6 +146,46 @@ type Tor struct {
 	PieceSize int64
 	Length    int64
 	N         int
+	// Lazy, when Content is nil, gives the true content of one piece (torrents
+	// too large to hold in memory: BuildHuge)
+	Lazy func(i int) []byte
+}
+
+// BuildHuge prepares a single-file torrent too large to materialise: the
+// content of piece i is a pure function of (seed, i), generated on demand;
+// the metainfo carries the true SHA-1 only for the pieces listed in real (the
+// ones a case is going to transfer) and arbitrary bytes for all others.
+func BuildHuge(pieceSize, length int64, seed uint64, real []int) (*Tor, error) {
+	Init()
+	n := int((length + pieceSize - 1) / pieceSize)
+	x := &Tor{PieceSize: pieceSize, Length: length, N: n}
+	cache := map[int][]byte{}
+	x.Lazy = func(i int) []byte {
+		if d, ok := cache[i]; ok {
+			return d
+		}
+		d := gen.Fill(seed+uint64(i)*0x9e3779b97f4a7c15, int(x.PieceLen(i)))
+		cache[i] = d
+		return d
+	}
+	pieces := gen.Fill(seed^0x5555, 20*n)
+	x.Hashes = make([][]byte, n)
+	for i := range x.Hashes {
+		x.Hashes[i] = pieces[20*i : 20*i+20]
+	}
+	for _, i := range real {
+		h := sha1.Sum(x.Lazy(i))
+		copy(pieces[20*i:], h[:])
+	}
+	x.Info = ref.Benc(map[string]any{"name": "huge", "piece length": pieceSize, "length": length, "pieces": pieces})
+	x.Meta = ref.Benc(map[string]any{"info": ref.Raw(x.Info)})
+	t, err := tor.ReadTorrent("", bytes.NewReader(x.Meta))
+	if err != nil {
+		return nil, err
+	}
+	t.Log.SetOutput(discard{})
+	x.T = t
+	return x, nil
 }
 
 func (g *Geometry) total() int64 {
@@ -280,6 +320,10 @@ func (x *Tor) Data(i int, begin, length int64) []byte {
 	end := min(off+length, int64(i)*x.PieceSize+x.PieceLen(i))
 	if off >= end {
 		return nil
+	}
+	if x.Content == nil && x.Lazy != nil {
+		base := int64(i) * x.PieceSize
+		return x.Lazy(i)[off-base : end-base]
 	}
 	return x.Content[off:end]
 }
